@@ -5,7 +5,8 @@ import ShredModel.Model.Access
 Every harness system sums what it reads and replaces each value it writes by an
 order-sensitive mix of (old value, its tag, that sum, its own run counter); it also keeps a
 running digest of the sums it has seen. `harness/src/sys.rs::HSys::run` is the same code on
-`u64`. World and per-system state are association lists.
+`u64`. World contents and per-system state are total functions (absent keys hold the initial
+value); the driver prints them on the finite key set it knows.
 -/
 namespace Shred
 
@@ -13,29 +14,14 @@ def mix (v tag sum c : UInt64) : UInt64 :=
   ((v * 6364136223846793005 + 1442695040888963407) ^^^ ((tag + 1) * 0x9E3779B97F4A7C15)) + sum * 31 + c
 
 structure EffState where
-  world : List (ResId × UInt64)
-  locals : List (Nat × UInt64 × UInt64)
+  world : ResId → UInt64
+  locals : Nat → UInt64 × UInt64
 
 def initVal (r : ResId) : UInt64 := (1000 + r.ty * 10 + r.dyn).toUInt64
 
-def initWorld (nty ndy : Nat) : List (ResId × UInt64) :=
-  (List.range nty).flatMap fun ty => (List.range ndy).map fun dy => (⟨ty, dy⟩, initVal ⟨ty, dy⟩)
+def EffState.init : EffState := { world := initVal, locals := fun _ => (0, 0) }
 
-def getW (w : List (ResId × UInt64)) (r : ResId) : UInt64 :=
-  match w.find? fun p => p.1 == r with
-  | some p => p.2
-  | none => 0
-
-def setW (w : List (ResId × UInt64)) (r : ResId) (v : UInt64) : List (ResId × UInt64) :=
-  w.map fun p => if p.1 == r then (p.1, v) else p
-
-def getL (l : List (Nat × UInt64 × UInt64)) (t : Nat) : UInt64 × UInt64 :=
-  match l.find? fun p => p.1 == t with
-  | some p => p.2
-  | none => (0, 0)
-
-def setL (l : List (Nat × UInt64 × UInt64)) (t : Nat) (v : UInt64 × UInt64) : List (Nat × UInt64 × UInt64) :=
-  if l.any fun p => p.1 == t then l.map fun p => if p.1 == t then (t, v) else p else l ++ [(t, v)]
+def upd {α β} [DecidableEq α] (f : α → β) (k : α) (v : β) : α → β := fun x => if x = k then v else f x
 
 def uniq {α} [DecidableEq α] : List α → List α → List α
   | [], acc => acc.reverse
@@ -45,10 +31,16 @@ def uniq {α} [DecidableEq α] : List α → List α → List α
 def fetchedWrites (d : Decl) : List ResId := uniq d.writes []
 def fetchedReads (d : Decl) : List ResId := uniq (d.reads.filter fun x => x ∉ d.writes) []
 
+def sumReads (rs : List ResId) (w : ResId → UInt64) : UInt64 := rs.foldl (fun s r => s + w r) 0
+
+def writeAll (ws : List ResId) (tag sum c : UInt64) (w : ResId → UInt64) : ResId → UInt64 :=
+  ws.foldl (fun w r => upd w r (mix (w r) tag sum c)) w
+
 def runSys (tag : Nat) (d : Decl) (st : EffState) : EffState :=
-  let sum := (fetchedReads d).foldl (fun s r => s + getW st.world r) (0 : UInt64)
-  let (c, seen) := getL st.locals tag
-  let world := (fetchedWrites d).foldl (fun w r => setW w r (mix (getW w r) tag.toUInt64 sum c)) st.world
-  { world := world, locals := setL st.locals tag (c + 1, mix seen tag.toUInt64 sum c) }
+  let sum := sumReads (fetchedReads d) st.world
+  let c := (st.locals tag).1
+  let seen := (st.locals tag).2
+  { world := writeAll (fetchedWrites d) tag.toUInt64 sum c st.world,
+    locals := upd st.locals tag (c + 1, mix seen tag.toUInt64 sum c) }
 
 end Shred
